@@ -70,7 +70,7 @@ namespace vh
                         auto info = io.get_info(req, cur);
                         out += info.has_value() ? "P=" + vfs_rel(info->physical, root) + "|V=" + vfs_rel(info->virtual_, root) : std::string("none");
                     }
-                    else if (q[0] == "inc")
+                    else if (q[0] == "inc" || q[0] == "ninc")
                     {
                         // preprocess a text located at `cur` that includes the request
                         auto res = v.rt->parser_preprocessor().preprocess(*v.rt, "#include \"" + req + "\"\n", cur);
